@@ -5,6 +5,7 @@ to a set of query sequences, by genetic distance
 package closest
 
 import (
+	"github.com/virus-evolution/gofasta/pkg/verifhook"
 	"errors"
 	"fmt"
 	"io"
@@ -178,6 +179,7 @@ func findClosest(query fastaio.EncodedFastaRecord, measure string, cIn chan fast
 	closest.qname = query.ID
 	closest.qidx = query.Idx
 
+	verifhook.Jitter("closest.findClosest", closest.qidx)
 	cOut <- closest
 }
 
